@@ -25,7 +25,8 @@ SAFE_AFTER_CMD = ['a', ' b', '+1', ')', '(', '=', ',', '\\\\', '', ' x']
 # (source, commands that must be found, hazard class)
 ATOMS = [('a', [], ''), ('x+y', [], ''), (' ', [], ''), ('1', [], ''), ('=', [], ''), ('\n', [], ''), ('\\$', [], 'escaped-dollar'),
          ('\\frac{a}{b}', ['frac'], 'cmd'), ('\\sqrt{x}', ['sqrt'], 'cmd'), ('\\mathbf{v}', ['mathbf'], 'cmd'),
-         ('\\alpha', ['alpha'], 'cmd0'),
+         ('\\alpha', ['alpha'], 'cmd0'), ('\\leftarrow', ['leftarrow'], 'cmd0'), ('\\rightarrow', ['rightarrow'], 'cmd0'),
+         ('\\biggl', ['biggl'], 'cmd0'), ('\\Biggr', ['Biggr'], 'cmd0'), ('\\leftrightarrow', ['leftrightarrow'], 'cmd0'),
          ('{a}', [], ''), ('_{i}', [], ''), ('^{2]}', [], 'bracket'), ('_{i \\in [0,n)}', ['in'], 'zero-op-in-group'),
          ('{\\cup[}', ['cup'], 'zero-op-in-group'),
          ('(', [], 'bracket'), (')', [], 'bracket'), ('[', [], 'bracket'), (']', [], 'bracket'), ('[a)', [], 'bracket'),
